@@ -207,7 +207,7 @@ func wantsFunc(g *Gen, f *ssa.Function, prop string) bool {
 	switch prop {
 	case "":
 		return true
-	case "C03", "C06", "C07", "C09", "C15", "C18":
+	case "C03", "C06", "C07", "C09", "C11", "C15", "C18":
 		return g.ReachableFromAPI()[f]
 	}
 	c := g.Spec.Contracts[FuncKey(f)]
@@ -258,7 +258,7 @@ func cmdCheck(args []string) {
 	timeout := 10000
 	coverReturns = *tier == "thorough"
 	if *tier == "thorough" {
-		timeout = 60000
+		timeout = 30000
 	}
 	if *tmo > 0 {
 		timeout = *tmo
